@@ -400,6 +400,7 @@ func spellCore(cc coreCase, p pdfsyn.Policy, r *rand.Rand) (*pdfsyn.Writer, []by
 // evalCore parses one spelling with core.Parser and compares.
 func evalCore(c *fw.Ctx, id string, cc coreCase, p pdfsyn.Policy, data []byte, detail map[string]any, a *acc) (f *failure) {
 	class := "core-" + cc.form + "/" + pdfsyn.WSNames[p.WS]
+	parseRejected(c, id+"|"+p.String(), a)
 	c.Guard(class, id, detail, func() {
 		ps := core.NewParser(bytes.NewReader(data))
 		switch cc.form {
@@ -561,8 +562,39 @@ func spellProgram(prog []pdfsyn.Op, p pdfsyn.Policy, r *rand.Rand) (*pdfsyn.Writ
 	return w, spans, append([]byte{}, w.Bytes()...)
 }
 
+// rejected are inputs both parsers refuse part-way through a token. They are
+// parsed (result ignored) right before legal inputs on the same goroutine: what
+// a parser makes of a legal spelling does not depend on what was refused before.
+var rejected = []string{
+	"BT /F1 12 Tf (never closed \\( Tj ET",
+	"q <48656C6C6G> Tj Q",
+	"[1 2 (x) <41",
+	"/N#4 << /K (v",
+	"<< /A [ /B (c) ] /D <4",
+	"(a(b(c) d",
+	"<",
+}
+
+func parseRejected(c *fw.Ctx, id string, ev *acc) {
+	r := c.Rand("rejected", id)
+	if r.Intn(3) != 0 {
+		return
+	}
+	for n := 1 + r.Intn(3); n > 0; n-- {
+		in := []byte(rejected[r.Intn(len(rejected))])
+		func() {
+			defer func() { recover() }() // crashes on damaged input are C02's subject
+			if _, err := contentstream.NewParser(in).Parse(); err != nil && ev != nil {
+				ev.Count("rejected_inputs_parsed_before_a_legal_one", 1)
+			}
+			core.NewParser(bytes.NewReader(in)).ParseObject()
+		}()
+	}
+}
+
 func evalProgram(c *fw.Ctx, id string, prog []pdfsyn.Op, p pdfsyn.Policy, spans [][2]int, data []byte, detail map[string]any, ev *acc) (f *failure) {
 	class := "cs-program/" + pdfsyn.WSNames[p.WS]
+	parseRejected(c, id+"|"+p.String(), ev)
 	c.Guard(class, id, detail, func() {
 		ops, err := contentstream.NewParser(data).Parse()
 		if err != nil {
